@@ -41,6 +41,10 @@ RULE = (
     "LimitedStream (CHESS-style recursion, no deviation bound) and the monitor is applied after every op. "
     "part B: full product of CONTENT_LENGTH x Transfer-Encoding x wsgi.input_terminated x max_content_length x "
     "safe_fallback x body length for get_input_stream and Request.stream, read under every answer sequence. "
+    "extra layers: the same with ValueError instead of OSError faults; a LimitedStream subclass whose "
+    "on_exhausted/on_disconnect hooks do nothing (safety half of the property only); readlines(hint); after every op "
+    "tell(), is_exhausted and readable() of the bare stream and tell() of a BufferedReader are compared with the "
+    "bytes consumed / delivered. "
     "state = choice point reached by a distinct answer sequence, transition = one environment answer. "
     "non-trivial = distinct (configuration, answer sequence) with at least one non-default answer or an "
     "exception outcome."
@@ -80,6 +84,7 @@ class Env:
         self.early_eof = False
         self.err = 0
         self.max_taken = 0
+        self.errkind = OSError      # or ValueError ("I/O operation on closed file"), which LimitedStream treats alike
 
     def _answer(self, kind: str, asked: int):
         if len(self.calls) >= MAX_CALLS:
@@ -103,7 +108,7 @@ class Env:
         self.calls.append((kind, asked, a))
         if a == "ERR":
             self.err += 1
-            raise OSError("injected")
+            raise self.errkind("injected")
         if a == "EOF":
             if left:
                 self.early_eof = True
@@ -128,18 +133,37 @@ class EnvRI(Env):
 # ------------------------------------------------------------------ consumer operations
 
 # op = (name, arg)
-OPS_ALL = [
+OPS_FULL = [
     ("read", 1), ("read", 2), ("read", None), ("read", -1), ("readline", None), ("readline", 2),
-    ("readlines", None), ("readinto", 1), ("readinto", 3), ("readinto", 8), ("next", None),
+    ("readlines", None), ("readlines", 3), ("readinto", 1), ("readinto", 3), ("readinto", 8), ("next", None),
     ("exhaust", None), ("readall", None),
 ]
+# read(-1) takes the same path as read() (RawIOBase.read -> readall): it is kept for the "full" layers only
+OPS_ALL = [o for o in OPS_FULL if o != ("read", -1)]
 OPS_REDUCED = [("read", 2), ("read", None), ("readline", None), ("readinto", 3), ("readinto", 8), ("exhaust", None)]
 WRAPS = ["bare", "br1", "br2", "br8", "txt", "txtraw"]
+# wrap names may carry "!V": the environment's fault is a ValueError instead of an OSError.
+# "hooks": a LimitedStream subclass whose on_exhausted / on_disconnect hooks do nothing (the documented
+# extension points) - only the safety half of the property applies (prefix, no over-read, no hang).
+
+
+class HooksLimitedStream(LimitedStream):
+    def on_exhausted(self):
+        self.hook_log.append("exhausted")
+
+    def on_disconnect(self, error=None):
+        self.hook_log.append("disconnect" if error is None else "disconnect:" + type(error).__name__)
+
+
+def wrap_base(wrap):
+    return wrap.split("!")[0]
+ALPHABETS = {"all": OPS_ALL, "full": OPS_FULL, "reduced": OPS_REDUCED}
 UNBOUNDED = {("read", None), ("read", -1), ("readlines", None), ("exhaust", None), ("readall", None)}
 
 
 def ops_for(wrap: str, alphabet):
-    if wrap == "bare":
+    wrap = wrap_base(wrap)
+    if wrap in ("bare", "hooks"):
         return list(alphabet)
     if wrap.startswith("br"):
         return [o for o in alphabet if o[0] not in ("exhaust", "readall")]
@@ -147,7 +171,8 @@ def ops_for(wrap: str, alphabet):
 
 
 def wrap_stream(ls, wrap: str):
-    if wrap == "bare":
+    wrap = wrap_base(wrap)
+    if wrap in ("bare", "hooks"):
         return ls
     if wrap.startswith("br"):
         return io.BufferedReader(ls, buffer_size=int(wrap[2:]))
@@ -184,10 +209,16 @@ def apply_op(f, op):
             problems.append("readline-crossed-newline")
         return r, r == b"", problems
     if name == "readlines":
-        lines = [_b(x) for x in f.readlines()]
+        lines = [_b(x) for x in (f.readlines() if arg is None else f.readlines(arg))]
         for ln in lines:
             if b"\n" in ln[:-1] or ln == b"":
                 problems.append("readlines-bad-line")
+        if arg is not None:
+            # with a hint reading stops once the hint is reached: an empty list is the end-of-stream indication,
+            # and no line may be fetched after the hint was reached
+            if sum(len(x) for x in lines[:-1]) > arg:
+                problems.append("readlines-read-past-hint")
+            return b"".join(lines), lines == [], problems
         return b"".join(lines), True, problems
     if name == "readinto":
         b = bytearray([FILL]) * arg
@@ -229,12 +260,20 @@ def run_case(cfg, ch: E4.Chooser):
     n, limit, is_max, wrap, ri, ops = cfg
     sent = DATA[:n]
     env = (EnvRI if ri else Env)(sent, ch)
-    ls = LimitedStream(env, limit, is_max)
+    if wrap.endswith("!V"):
+        env.errkind = ValueError
+    hooks = wrap_base(wrap) == "hooks"
+    if hooks:
+        ls = HooksLimitedStream(env, limit, is_max)
+        ls.hook_log = []
+    else:
+        ls = LimitedStream(env, limit, is_max)
     f = wrap_stream(ls, wrap)
     got = b""
     viol: list = []
     outcome: list = []
-    bare = wrap == "bare"
+    bare = wrap_base(wrap) in ("bare", "hooks")
+    buffered = wrap_base(wrap).startswith("br")
 
     def bad(sig, **kw):
         kw["ncalls"] = len(env.calls)      # underlying calls made when the violation was observed
@@ -281,6 +320,34 @@ def run_case(cfg, ch: E4.Chooser):
             bad("over-read-underlying", op=idx, consumed=env.pos)
         if bare and ls._pos != env.pos:
             bad("pos-accounting-differs-from-consumed", op=idx, pos=ls._pos, consumed=env.pos)
+        if bare:
+            # the public face of the accounting
+            if ls.tell() != env.pos:
+                bad("tell-differs-from-consumed", op=idx, tell=ls.tell(), consumed=env.pos)
+            if ls.is_exhausted != (env.pos >= L):
+                bad("is_exhausted-wrong", op=idx, consumed=env.pos)
+            if ls.readable() is not True or ls.closed:
+                bad("readable-false", op=idx)
+        elif buffered and status == "ok":
+            try:
+                t_ = f.tell()
+            except Exception as e:  # noqa: BLE001
+                t_ = repr(e)
+            if t_ != total:
+                bad("buffered-tell-differs-from-delivered", op=idx, tell=t_, delivered=total)
+        if hooks:
+            # hooks overridden to do nothing: every op must simply return (EOF instead of an exception)
+            if status not in ("ok", "HANG"):
+                bad("exception-although-hooks-do-nothing:" + status, op=idx, text=exc_text)
+            if status == "HANG":
+                bad("endless-read", op=idx)
+            if status == "ok" and total != env.pos:
+                bad("bytes-consumed-but-not-delivered", op=idx, consumed=env.pos, delivered=total)
+            if status == "ok" and eof_ind and total < L and not (env.eof_seen or injected or env.err):
+                bad("silent-truncation:eof-before-end-of-input", op=idx, total=total)
+            if status != "ok":
+                break
+            continue
         if status == "ok":
             if bare and total != env.pos:
                 bad("bytes-consumed-but-not-delivered", op=idx, consumed=env.pos, delivered=total)
@@ -329,8 +396,9 @@ def run_case(cfg, ch: E4.Chooser):
 
 # ------------------------------------------------------------------ part B: get_input_stream
 
-CL_VALUES = [None, "0", "3", "5", "-1", "abc", "٣", " 3 ", "+3", "3.0", "1_0"]
-TE_VALUES = [None, "chunked", "Chunked", "gzip"]
+CL_VALUES = [None, "0", "3", "5", "-1", "abc", "٣", " 3 ", "+3", "3.0", "1_0",
+             "", "00", "007", "-0", "3 3", "0x3", "99999999999999999999", "3\t", "³"]
+TE_VALUES = [None, "chunked", "Chunked", "gzip", "CHUNKED", " chunked", "gzip, chunked", "chunked, gzip", "identity", ""]
 MCL_VALUES = [None, 0, 2, 3, 9]
 
 
@@ -345,8 +413,8 @@ def declared_lengths(cl, te):
         return {None}
     if te == "chunked":
         return {None}
-    if te is not None and te.lower() == "chunked":
-        return {None, plain(cl)}     # statement silent on letter case: accept both readings
+    if te is not None and "chunked" in te.lower():
+        return {None, plain(cl)}     # statement silent on letter case / padding / coding lists: accept both readings
     return {plain(cl)}
 
 
@@ -503,11 +571,19 @@ def _match_b(exp, status, got, consumed, injected, sent, env_s, whole=False):
 # ------------------------------------------------------------------ spaces / units
 
 def tier_params(tier):
-    """layers = (body lengths, op-sequence length, alphabet); thorough is a superset of quick
-    (a shorter op sequence is a prefix of a longer one and the monitor runs after every op)."""
+    """layers = (body lengths, op-sequence length, alphabet, variant); thorough is a superset of quick
+    (a shorter op sequence is a prefix of a longer one and the monitor runs after every op).
+    variant: std = the six wrappers, OSError faults; verr = the same with ValueError faults; hooks = subclass with
+    no-op on_exhausted / on_disconnect."""
     if tier == "thorough":
-        return dict(layers=[(range(0, 7), 3, "all"), (range(0, 6), 4, "reduced")], nb=(0, 2, 3, 5, 7))
-    return dict(layers=[(range(0, 4), 3, "all"), (range(4, 5), 2, "all"), (range(0, 3), 4, "reduced")],
+        return dict(layers=[(range(0, 7), 3, "full", "std"), (range(0, 6), 4, "reduced", "std"),
+                            (range(0, 4), 4, "all", "std"),
+                            (range(0, 5), 3, "all", "verr"), (range(0, 6), 3, "full", "hooks")],
+                    nb=(0, 2, 3, 5, 7))
+    return dict(layers=[(range(0, 4), 3, "all", "std"), (range(0, 5), 2, "full", "std"),
+                        (range(0, 3), 4, "reduced", "std"),
+                        (range(0, 3), 2, "all", "verr"), (range(0, 4), 2, "full", "hooks"),
+                        (range(0, 3), 3, "reduced", "hooks")],
                 nb=(0, 3, 5))
 
 
@@ -518,12 +594,13 @@ def limits_for(n):
 def units(tier):
     P = tier_params(tier)
     us = []
-    for ns, depth, which in P["layers"]:
-        alphabet = OPS_ALL if which == "all" else OPS_REDUCED
+    for ns, depth, which, variant in P["layers"]:
+        alphabet = ALPHABETS[which]
+        wraps = {"std": WRAPS, "verr": [w + "!V" for w in WRAPS], "hooks": ["hooks"]}[variant]
         for n in ns:
             for limit in limits_for(n):
                 for is_max in (False, True):
-                    for wrap in WRAPS:
+                    for wrap in wraps:
                         for ri in (False, True):
                             for first in ops_for(wrap, alphabet):
                                 us.append(("A", n, limit, is_max, wrap, ri, first, depth, which))
@@ -534,7 +611,7 @@ def units(tier):
 
 
 def op_sequences(wrap, first, depth, which):
-    alpha = ops_for(wrap, OPS_ALL if which == "all" else OPS_REDUCED)
+    alpha = ops_for(wrap, ALPHABETS[which])
     for rest in itertools.product(alpha, repeat=depth - 1):
         yield (tuple(first),) + tuple(rest)
 
@@ -562,7 +639,7 @@ def run_unit(unit, R, tier):
                 if env_s.early_eof:
                     R.use("env:early-eof")
                 if env_s.err:
-                    R.use("env:oserror")
+                    R.use("env:oserror" if env_s.errkind is OSError else "env:valueerror")
                 if any(c for c in ch.choices):
                     R.use("env:short-read")
                     R.nontrivial((cfg, tuple(ch.choices)))
@@ -609,14 +686,17 @@ def run_unit(unit, R, tier):
 
 
 def wrap_kind(wrap):
+    wrap = wrap_base(wrap)
+    if wrap == "hooks":
+        return "hooks"
     return "bare" if wrap == "bare" else ("buffered" if wrap.startswith("br") else "text")
 
 
 def finalize(R, tier):
-    need = {"wrap:" + w for w in WRAPS} | {"ri:True", "ri:False", "max:True", "max:False",
+    need = {"wrap:" + w for w in WRAPS} | {"wrap:hooks", "wrap:bare!V", "wrap:br2!V", "env:valueerror"} | {"ri:True", "ri:False", "max:True", "max:False",
             "status:ok", "status:CD", "status:RETL", "env:early-eof", "env:oserror", "env:short-read",
             "B:ok", "B:CD", "B:RETL", "B:RETL-early"}
-    need |= {"op-ok:" + o[0] for o in OPS_ALL} | {"op-raised:" + o[0] for o in OPS_ALL}
+    need |= {"op-ok:" + o[0] for o in OPS_FULL} | {"op-raised:" + o[0] for o in OPS_FULL}
     missing = need - R.used
     if missing:
         raise core.Broken(f"vacuity: never exercised {sorted(missing)}")
@@ -625,7 +705,8 @@ def finalize(R, tier):
     P = tier_params(tier)
     return {
         "bound": "; ".join(f"body length {min(ns)}..{max(ns)}: op sequences of length {d} over the {w} alphabet"
-                           for ns, d, w in P["layers"]) + "; every environment answer sequence",
+                           + ("" if v == "std" else f" [{v}]")
+                           for ns, d, w, v in P["layers"]) + "; every environment answer sequence",
         "deviation_bound": "none (all answer sequences)",
         "exhaustive": True,
         "explanation": "for every configuration the complete tree of environment answers (short reads of every "
